@@ -40,7 +40,7 @@ ANCHORS = [
     ('pjrpc/server/dispatcher.py', 'AsyncDispatcher._handle_rpc_request'),
     ('pjrpc/server/dispatcher.py', 'AsyncDispatcher._handle_rpc_method'),
 ]
-FLOORS = {'*': {'schedules': 20000, 'shapes': 1000, 'shapes-with>=2-completion-orders': 80, 'last-element-finishes-first': 50,
+FLOORS = {'*': {'schedules': 12000, 'shapes': 1000, 'shapes-with>=2-completion-orders': 80, 'last-element-finishes-first': 50,
                 'max-in-flight>=2:concurrent': 200, 'sequential-mode-shapes': 60, 'points:method': 500, 'points:middleware': 500,
                 'points:error-handler': 200, 'profile:notification': 100, 'profile:plain-method': 100, 'profile:rpc-error': 100,
                 'profile:exception': 100, 'elements:4': 2}}
